@@ -63,7 +63,7 @@ def run(prop, tier, seed, replay=None):
         C.log("[mc] RefsValid: holds with MAY_MOVE=FALSE (%d states); counterexample with MAY_MOVE=TRUE: %s" % (mst, cex))
         n_u, n_h, ln = (4, 25, 60) if tier == "quick" else (30, 80, 150)
         jobs = []
-        for name in ["core", "q"]:
+        for name in ["core", "q", "sz"]:       # sz: map geometry (many growth steps, events across chunk and page boundaries)
             up = S.universe_path(name)
             u = json.load(open(up))
             jobs.append((name, up, u, histories(u, rnd, n_h, ln)))
@@ -77,7 +77,7 @@ def run(prop, tier, seed, replay=None):
     samples = []
     keys = {}
     for name, up, u, hs in jobs:
-        tfiles = S.run_storedrv(bindir, up, hs, wd, name)
+        tfiles = S.run_storedrv(bindir, up, hs, wd, name, on_disk=(name == "sz"))
         bad, lines = S.judge("C15", up, tfiles)
         for t in tfiles:
             prev = None
